@@ -436,8 +436,10 @@ func (s *refsSUT) oracleOp(f []string) string {
 		// a ListenerSet namespace is accepted only if the parent Gateway says so: All, Same (and it is the same
 		// namespace), or a selector that the namespace's labels (incl. the implicit name label) satisfy
 		if !lsAccepted(f) {
+			oracleStats["lsacc.refused."+f[3]]++
 			return ""
 		}
+		oracleStats["lsacc.accepted."+f[3]]++
 		switch f[3] {
 		case "All":
 			return ""
@@ -540,9 +542,15 @@ func (s *refsSUT) oracleOp(f []string) string {
 				}
 				if explicit && grantedBy(s.specs, ls, toKind, refNs, refName, lookup) {
 					ok = true
+					oracleStats["refs.by-grant"]++
 				}
 				if refNs == lookup && (g.Namespace == vns || ls) {
 					ok = true
+					if ls {
+						oracleStats["refs.listenerset-own-namespace"]++
+					} else {
+						oracleStats["refs.same-namespace"]++
+					}
 				}
 			}
 		}
